@@ -20,7 +20,7 @@ from tools.props import c05_proj
 MANIFEST = {
     "level_text": "Coq theorems (Properties/C05.v, no axioms) over a faithful Gallina transcription of parse_type_structure (with the depth-aware find_top_level_comma / split_top_level), the default/TypeScript/Zod visitors, the Zod schema builder and add_types_prefix, for every type of the documented language (unbounded nesting): C05_parse_faithful (string -> TypeStructure round trip, no class premise); C05_sound_ts_sites - at every site whose text is a TypeScript type (parameter, field, channel in plain mode; channel, return, event payload in both modes: 8 of the 10 site x mode pairs) and outside the recorded classes the printed text, read by an independent TypeScript type parser with real precedences, is exactly the README-table shape of the Rust type, namespace-qualified at return/event sites (C05_sound_plain, C05_sound_prefix, C05_prefix_is_qualified_render: add_types_prefix on the visitor's text is the qualified rendering); C05_compositional_*; C05_oracle_exact (the boolean run-time oracle is equivalent to the Prop statement); C05_zod_tree_denotes, C05_sound_zod_schema and C05_sound_full_bounded (the full statement at all ten site x mode pairs, Zod parameter/field schemas included, for types nested less than 31 levels whose structure lies in the domain of the C10 round-trip theorem; see level_note); a computed refutation for each of the five remaining classes and a computed positive statement on the witnesses of the three repaired ones. The model is tied to /repo on every run: every constructor spine to depth 2 (quick) / 3 (thorough), all 14 numeric widths, random types to depth 6 and a malformed-string stream are pushed through the real parsers, visitors, schema builder and the real partial templates, compared string for string with the extracted model at all five sites in both modes, and the extracted specification is applied to the implementation's text.",
     "design_ref": "DESIGN.md section 5 C05",
-    "level_note": "Tuples of every arity (the 1-tuple (T,), printed (T), reads as [T]) and project types with names such as Path, Date, Record are inside the enumerations (streams tuple-arity, special-names); the theorems never restricted tuple arity; Record / Map / Set as project type names are reserved in dom_b and judged by the run-time oracle only. ALL ten site x mode pairs are now theorems: C05_sound_full_bounded / C05_sound_zod_schema prove the full statement at every site in both modes with two decidable premises added - tsdepth (sem t) < 31 (the specification's expression parser has the fixed budget 64) and C10Zod.dom (sem t) (the domain of the C10 development's round-trip theorem C10LexEx.parse_build: map keys String/numbers, names not taken) - so types with a named or bool map key, or nested 31 levels or more, are covered at the Zod schema sites only CONDITIONALLY: C05_sound_all_sites / C05_sound_zod_schema_under_link give the statement under (a) the nesting premise tdepth (sem t) < 60 (the specification's expression parser has the fixed budget 64) and (b) the explicit hypothesis zod_parse_link - the builder's text parses to the builder's tree, parse_ex (build_schema m ts) = Some (zex_of m ts false) - which is the round trip the C10 development is proving; unconditional here are the reading of that tree (C05_zod_tree_denotes: zshape of the tree is the README shape, by structural induction) and the identity of the two builder models (C05_zod_builders_agree). For that remainder the two sites additionally rest on bounded sweeps of the model (C05_sweep_sound_depth1_partial / C05_classes_exact_depth1_partial in the property file: 196 types x 5 sites x 2 modes; the depth-2 sweep over the 3763 types of the quick enumeration is coq/Proofs/C05Sweep2.v, compiled by the thorough tier and kept out of the property's coqchk closure) plus the run-time oracle and correspondence; C05_sound_full_statement itself stays unasserted. The TypeScript-side theorems are stated over ASCII identifiers (dom_b); C05_parse_faithful covers UTF-8 names (C05_utf8_names_admitted) and non-ASCII names are checked at run time through a consistent renaming to ASCII (widening needs the one-line change of is_idc in the shared Model/Render.v - verified in a scratch copy to leave every proof of this property intact - which forces a rebuild of the C01, C02, C03, C12 closures and was therefore left to the coordinator). Event payload type inference (event_parser.rs) and whole-project generation through the CLI are not exercised: the event site starts from EventInfo.payload_type. Repaired and no longer classes: C05-2, C05-3, C05-4. The TypeScript grammar subset, the Zod reading and the README table are specifications, not proved against tsc / zod / serde_json.",
+    "level_note": "Tuples of every arity (the 1-tuple (T,), printed (T), reads as [T]) and project types with names such as Path, Date, Record are inside the enumerations (streams tuple-arity, special-names); the theorems never restricted tuple arity; Record / Map / Set as project type names are reserved in dom_b and judged by the run-time oracle only. ALL ten site x mode pairs are now theorems: C05_sound_full_bounded / C05_sound_zod_schema prove the full statement at every site in both modes with two decidable premises added - tsdepth (sem t) < 31 (the specification's expression parser has the fixed budget 64) and C10Zod.dom (sem t) (the domain of the C10 development's round-trip theorem C10LexEx.parse_build: map keys String/numbers, names not taken) - so types with a named or bool map key, or nested 31 levels or more, are covered at the Zod schema sites only CONDITIONALLY: C05_sound_all_sites / C05_sound_zod_schema_under_link give the statement under (a) the nesting premise tdepth (sem t) < 60 (the specification's expression parser has the fixed budget 64) and (b) the explicit hypothesis zod_parse_link - the builder's text parses to the builder's tree, parse_ex (build_schema m ts) = Some (zex_of m ts false) - which is the round trip the C10 development is proving; unconditional here are the reading of that tree (C05_zod_tree_denotes: zshape of the tree is the README shape, by structural induction) and the identity of the two builder models (C05_zod_builders_agree). For that remainder the two sites additionally rest on bounded sweeps of the model (C05_sweep_sound_depth1_partial / C05_classes_exact_depth1_partial in the property file: 196 types x 5 sites x 2 modes; the depth-2 sweep over the 3763 types of the quick enumeration is coq/Proofs/C05Sweep2.v, compiled by the thorough tier and kept out of the property's coqchk closure) plus the run-time oracle and correspondence; C05_sound_full_statement itself stays unasserted. Names with non-ASCII letters are inside the theorems on BOTH sides: C05_parse_faithful covers UTF-8 names (C05_utf8_names_admitted), and since Model/Render.is_idc (hence dom_b) and Spec/TsLex.is_id_start admit every byte >= 128, C05_utf8_names_admitted_ts shows that a name of bytes >= 128 and ASCII letters, digits, _ and $ (not reserved, not a table name) is a leaf of dom_b whose emitted text at every TypeScript-type site lexes and parses to the expected shape on the real bytes; compound types over such leaves fall under C05_sound_ts_sites / C05_sound_full_bounded as they stand. At run time (stream unicode-names) domain, oracle and classes are judged on the real bytes at all ten site x mode pairs; the consistent renaming to ASCII survives only as a cross-check (a verdict that changes under the renaming makes the site not ok; count in extra.non_ascii_image_disagreements, expected 0). The specification lexers treat every byte >= 128 as an identifier character - they do not check that the bytes form an ECMAScript ID_Continue code point (trusted: Rust identifiers are XID, a subset). Event payload type inference (event_parser.rs) and whole-project generation through the CLI are not exercised: the event site starts from EventInfo.payload_type. Repaired and no longer classes: C05-2, C05-3, C05-4. The TypeScript grammar subset, the Zod reading and the README table are specifications, not proved against tsc / zod / serde_json.",
     "technique": "Rocq/Coq proof over hand-written model + correspondence check (extracted OCaml vs Rust harness)"
 }
 
@@ -120,9 +120,10 @@ def evaluate(cases, kf_by_class=KF_BY_CLASS, want=None):
         ren = non_ascii_renaming(c["ty"])
         if ren:
             # names with non-ASCII letters: the TypeScript side must carry the name VERBATIM. The specification's
-            # lexer is ASCII-only, so the oracle is applied to the image of the case under a consistent renaming of
-            # those names to fresh ASCII identifiers (in the Rust type and in the implementation's texts alike);
-            # correspondence is still checked on the real bytes.
+            # lexers admit every byte >= 128 as an identifier character (C05_utf8_names_admitted_ts), so domain,
+            # oracle and classes are judged on the REAL bytes. The image of the case under a consistent renaming of
+            # those names to fresh ASCII identifiers (in the Rust type and in the implementation's texts alike) is
+            # kept as a cross-check only: the verdicts must not depend on the spelling of the names.
             ascii_idx.append(i)
             ascii_sexps.append(sx([T.sx_ty(rename_tree(c["ty"], ren)), [[k, v] for k, v in m],
                                    [rename_text(x, ren) for x in texts_of(o)]]))
@@ -143,11 +144,21 @@ def evaluate(cases, kf_by_class=KF_BY_CLASS, want=None):
             continue
         m_tts, m_struct, m_sem, m_opt, m_dom, m_sites, m_plain, m_prefix, m_zv = r
         if ci in ascii_res:
-            # verdicts (domain, oracle, classes) come from the renamed image; model texts stay those of the real bytes
+            # verdicts (domain, oracle, classes) come from the real bytes; the renamed image must agree on the domain,
+            # the oracle's answer and the classes at every site - where it does not, the site is judged not ok
             ra = ascii_res[ci]
-            m_dom = ra[4]
-            m_sites = [[real[0]] + list(img[1:]) for real, img in zip(m_sites, ra[5])]
             stats["non_ascii_named"] = stats.get("non_ascii_named", 0) + 1
+            if m_dom != ra[4]:
+                stats["non_ascii_image_disagreements"] = stats.get("non_ascii_image_disagreements", 0) + 1
+                m_dom = "false"
+            merged = []
+            for real, img in zip(m_sites, ra[5]):
+                real = list(real)
+                if real[1] != img[1] or real[4] != img[4]:
+                    stats["non_ascii_image_disagreements"] = stats.get("non_ascii_image_disagreements", 0) + 1
+                    real[1] = "false"
+                merged.append(real)
+            m_sites = merged
         if m_dom != "true":
             stats["out_of_domain"] += 1
         # string and structure level
@@ -349,6 +360,7 @@ def run(rep):
     uni += [{"ty": T.random_type(rng, rng.randint(2, 6), leaves=UNI_LEAVES)} for _ in range(5000 if thorough else 600)]
     run_stream(rep, "unicode-names", uni, stats)
     rep.extra["non_ascii_named_types"] = stats.get("non_ascii_named", 0)
+    rep.extra["non_ascii_image_disagreements"] = stats.get("non_ascii_image_disagreements", 0)
     rep.add("raw", evaluate_raw(raw_cases(rng, 20000 if thorough else 3000)))
     rep.add("printers", evaluate_printers(x_cases()))
     # project level, real CLI binary: the event payload site as the tool reaches it, module-qualified spellings
